@@ -21,6 +21,8 @@ import LinVerif.Lemmas.C14StreamExt
 import LinVerif.Lemmas.C14SnappyReuse
 import LinVerif.Lemmas.C14Rejected
 import LinVerif.Lemmas.C14StreamFree
+import LinVerif.Lemmas.C14FoHistory
+import LinVerif.Lemmas.C14EncUtils
 
 namespace LinVerif.Props.C14
 open LinVerif LinVerif.Bits LinVerif.Varint
@@ -1480,5 +1482,179 @@ example :
     ((Stream.Reader.fresh [1, 2, 3]).run [.slice 2, .bytes 4, .until 9]).1 = [[1, 2], [3], []] := by decide
 
 end StreamFreeForm
+
+/-! ## 13. a `FixedOffsetDecoder` object under a history of calls: reads leave no trace (Round 12)
+
+`Get`, `GetBlock`, `Size`, `ValueWidth` write nothing outside their own locals (regenerated, tie below), so the object
+a re-arming `Unmarshal` receives differs from a fresh one at most by what earlier `Unmarshal`s left — which
+`Unmarshal` overwrites. Consequence: whatever was asked of the previous table(s), in whatever order and however far
+a scan got, the answers about the next table are those of a fresh decoder, for EVERY order of questions. -/
+
+section FoHistory
+open LinVerif.FixedOffset
+
+/-- **fixedoffset_reads_leave_no_trace.** Any object, any history of calls (`Unmarshal` of any bytes accepted or
+rejected, `Get`, `GetBlock` on any data block, `Size`, `ValueWidth`, in any order), then `Unmarshal(data)` followed by
+ANY list of further calls: the answers are exactly those of `NewFixedOffsetDecoder()` given the same calls; and the
+object after the history depends on the history's `Unmarshal` inputs alone. -/
+theorem fixedoffset_reads_leave_no_trace (d : FixedOffset.Dec) (history : List FixedOffset.DecOp) (data : List Nat)
+    (qs : List FixedOffset.DecOp) :
+    ((d.run history).2.run (.unm data :: qs)).1 = (FixedOffset.Dec.fresh.run (.unm data :: qs)).1 ∧
+    (d.run history).2 = d.feed (unmInputs history) ∧
+    ((∀ op ∈ history, op.isRead = true) → (d.run history).2 = d) :=
+  ⟨rfl, Dec.run_state history d, fun h => Dec.run_reads_state history h d⟩
+
+/-- **fixedoffset_scan_any_order_after_any_history.** A table of non-decreasing offsets inside the data block, given
+to ANY object after ANY history of calls: `GetBlock` for any list of valid indexes — forward scan, backward scan,
+point lookups, repeats, a scan that continues where the scan of the previous table stopped — returns for every
+question the byte range `data[vs[i] : vs[i+1]]` (the last one up to the end of the data block). -/
+theorem fixedoffset_scan_any_order_after_any_history (inc : Bool) (vs junk data : List Nat) (d0 : FixedOffset.Dec)
+    (history : List FixedOffset.DecOp) (idxs : List Nat)
+    (hne : vs ≠ []) (hlt : ∀ v ∈ vs, v < 2 ^ 32) (hlen : vs.length < 2 ^ 32)
+    (hmono : ∀ i (h : i + 1 < vs.length), vs[i] ≤ vs[i + 1]) (hbound : ∀ v ∈ vs, v ≤ data.length)
+    (hidx : ∀ i ∈ idxs, i < vs.length) :
+    ((d0.run history).2.run
+        (.unm ((encOf inc vs).marshal ++ junk) :: idxs.map (fun (i : Nat) => FixedOffset.DecOp.blk (i : Int) data))).1
+      = FixedOffset.DecAns.unm (.ok junk) ::
+        idxs.map (fun (i : Nat) =>
+          FixedOffset.DecAns.blk (.ok ((data.take ((vs[i + 1]?).getD data.length)).drop ((vs[i]?).getD 0)))) := by
+  obtain ⟨d, hu, hb⟩ := fixedoffset_getBlock_correct inc vs junk data (d0.run history).2 hne hlt hlen hmono hbound
+  simp only [Dec.run, Dec.step, hu]
+  rw [(Dec.run_blks data idxs d).1]
+  congr 1
+  apply List.map_congr_left
+  intro i hi
+  have hi' := hidx i hi
+  rw [hb i hi']
+  simp [hi']
+
+/-- non-vacuity: a decoder that scanned the first two blocks of `[0, 10, 30, 60]` (and was asked other things) is
+given `[0, 3, 8]`; `GetBlock(2)` — the continuation of the old scan —, then 0, 1, 2 again: the new table's ranges -/
+example :
+    let data := [1, 2, 3, 4, 5, 6, 7, 8, 9, 10]
+    ((FixedOffset.Dec.fresh.run [.unm (encOf true [0, 10, 30, 60]).marshal, .blk 0 (List.replicate 70 7),
+        .blk 1 (List.replicate 70 7), .size, .get 9]).2.run
+      (.unm (encOf true [0, 3, 8]).marshal :: [2, 0, 1, 2].map (fun (i : Nat) => FixedOffset.DecOp.blk (i : Int) data))).1.drop 1
+      |>.map (fun a => match a with | .blk r => blkOf r | _ => none)
+    = [some [9, 10], some [1, 2, 3], some [4, 5, 6, 7, 8], some [9, 10]] := by decide
+
+/-- TIE: in the source the four read methods write nothing outside their own locals (no receiver field, no element of
+a receiver slice, no package-level variable; `Unmarshal` is the only method that writes the receiver) — what
+`Dec.step` mirrors by returning the object unchanged. `GetBlock`'s statement shape and calls are pinned as well: both
+offsets come from `d.Get`, nothing is remembered between calls. -/
+theorem fixedoffset_reads_write_nothing :
+    Generated.C14.fixedOffsetDecoderGetWrites = [] ∧
+    Generated.C14.fixedOffsetDecoderGetBlockWrites = [] ∧
+    Generated.C14.fixedOffsetDecoderSizeWrites = [] ∧
+    Generated.C14.fixedOffsetDecoderValueWidthWrites = [] ∧
+    Generated.C14.fixedOffsetDecoderUnmarshalWrites = ["recv:offsetsBlock", "recv:width", "recv:size", "recv:width",
+      "recv:size", "recv:offsetsBlock"] ∧
+    Generated.C14.fixedOffsetDecoderGetBlockShape = ["local:startOffset", "local:ok", "if{", "return", "}",
+      "local:endOffset", "local:ok", "if{", "local:endOffset", "}", "if{", "return", "}", "return"] ∧
+    Generated.C14.fixedOffsetDecoderGetBlockCalls = ["d.Get", "len", "fmt.Errorf", "d.Get", "len", "len", "len",
+      "fmt.Errorf"] ∧
+    Generated.C14.getFixedOffsetDecoderCalls = ["fixedOffsetDecoderPool.Get"] ∧
+    Generated.C14.releaseFixedOffsetDecoderCalls = ["fixedOffsetDecoderPool.Put"] :=
+  ⟨rfl, rfl, rfl, rfl, rfl, rfl, rfl, rfl, rfl⟩
+
+namespace Neg
+
+/-- what "reads leave no trace" protects against: a decoder whose `GetBlock` keeps a scan cursor that `Unmarshal`
+does not drop (NOT lindb's code, `FixedOffset.DecC`). Point lookup `GetBlock(0)` on `[0, 10, 30, 60]`, then the
+table `[0, 3, 8]`: `GetBlock(1)` starts at the OLD table's offset 10 — beyond the new end offset 8 — and fails, while
+lindb's decoder returns `data[3:8]`. On one table the cursor decoder is exact. -/
+theorem scan_cursor_survives_unmarshal :
+    let data := [1, 2, 3, 4, 5, 6, 7, 8, 9, 10]
+    let a := (encOf true [0, 10, 30, 60]).marshal
+    let b := (encOf true [0, 3, 8]).marshal
+    let c1 := ((DecC.fresh.unmarshal a).getBlock 0 (List.replicate 70 7)).2
+    blkOf ((c1.unmarshal b).getBlock 1 data).1 = none ∧
+    blkOf ((DecC.fresh.unmarshal b).getBlock 1 data).1 = some [4, 5, 6, 7, 8] ∧
+    blkOf (((FixedOffset.Dec.fresh.run [.unm a, .blk 0 (List.replicate 70 7)]).2.unmarshal b).2.getBlock 1 data)
+      = some [4, 5, 6, 7, 8] := by
+  intro data a b c1; decide
+
+end Neg
+
+end FoHistory
+
+/-! ## 14. pkg/encoding/utils.go (slices seen as bytes and back) and the 16/16 split of a uint32 (Round 12)
+
+Used by the storage paths outside the block codecs: `memdb` field writer and `metricsdata` flusher/merger
+(`Float64ToBytes` / `BytesToFloat64`), the trie (`U32/U64SliceToBytes`, `BytesToU32/U64Slice`), the forward index
+(`HighBits`/`LowBits`/`ValueWithHighLowBits` — container key + low 16 bits of a series id). -/
+
+section EncUtils
+open LinVerif.EncUtils
+
+/-- **u32_slice_bytes_roundtrip / u64.** Every `[]uint32` (`[]uint64`) seen as bytes and read back is the same slice,
+also from a buffer that continues with up to 3 (7) more bytes; the byte view has `4·len` (`8·len`) bytes. -/
+theorem word_slices_roundtrip (u tail : List Nat) :
+    ((∀ v ∈ u, v < 2 ^ 32) → tail.length < 4 →
+      bytesToU32Slice (u32SliceToBytes u ++ tail) = u ∧ (u32SliceToBytes u).length = 4 * u.length) ∧
+    ((∀ v ∈ u, v < 2 ^ 64) → tail.length < 8 →
+      bytesToU64Slice (u64SliceToBytes u ++ tail) = u ∧ (u64SliceToBytes u).length = 8 * u.length) := by
+  refine ⟨fun h ht => ⟨?_, u32_bytes_length u⟩, fun h ht => ⟨?_, u64_bytes_length u⟩⟩
+  · have hl : (u32SliceToBytes u ++ tail).length / 4 = u.length := by
+      rw [List.length_append, u32_bytes_length]; omega
+    unfold bytesToU32Slice
+    rw [hl]
+    exact words4_bytes u tail (fun v hv => by simpa using h v hv)
+  · have hl : (u64SliceToBytes u ++ tail).length / 8 = u.length := by
+      rw [List.length_append, u64_bytes_length]; omega
+    unfold bytesToU64Slice
+    rw [hl]
+    exact words8_bytes u tail (fun v hv => by simpa using h v hv)
+
+/-- **float64_bytes_roundtrip.** Every 64-bit pattern (every NaN payload, ±0, subnormals) written with
+`Float64ToBytes` and read with `BytesToFloat64` — whatever follows in the buffer — is the same pattern. -/
+theorem float64_bytes_roundtrip (bits : Nat) (rest : List Nat) (h : bits < 2 ^ 64) :
+    bytesToFloat64 (float64ToBytes bits ++ rest) = some bits ∧ (float64ToBytes bits).length = 8 := by
+  refine ⟨?_, rfl⟩
+  have hl : ¬ (float64ToBytes bits ++ rest).length < 8 := by
+    simp [float64ToBytes, le8_length]
+  unfold bytesToFloat64
+  rw [if_neg hl]
+  have : (float64ToBytes bits ++ rest).take 8 = le8 bits := by
+    rw [List.take_append_of_le_length (by simp [float64ToBytes, le8_length])]; simp [float64ToBytes, le8, le4]
+  rw [this, fromLE_le8 bits (by simpa using h)]
+
+/-- **uint32_high_low_split_roundtrip.** Every `uint32` is put together again from its two halves, and every pair of
+halves is read back from the value they form (the split loses nothing and invents nothing). -/
+theorem uint32_high_low_split_roundtrip :
+    (∀ x, x < 2 ^ 32 → valueWithHighLowBits (highBits x <<< 16) (lowBits x) = x ∧ highBits x < 2 ^ 16 ∧ lowBits x < 2 ^ 16) ∧
+    (∀ hi lo, hi < 2 ^ 16 → lo < 2 ^ 16 →
+      highBits (valueWithHighLowBits (hi <<< 16) lo) = hi ∧ lowBits (valueWithHighLowBits (hi <<< 16) lo) = lo) := by
+  refine ⟨fun x hx => ⟨split_roundtrip x (by simpa using hx), ?_, ?_⟩, fun hi lo h1 h2 =>
+    split_inverse hi lo (by simpa using h1) (by simpa using h2)⟩
+  · exact Nat.mod_lt _ (by decide)
+  · exact Nat.mod_lt _ (by decide)
+
+example :
+    bytesToU32Slice (u32SliceToBytes [0, 1, 4294967295, 305419896] ++ [9, 9]) = [0, 1, 4294967295, 305419896] ∧
+    u32SliceToBytes [305419896] = [0x78, 0x56, 0x34, 0x12] ∧
+    bytesToFloat64 (float64ToBytes 0x7ff8000000000001) = some 0x7ff8000000000001 ∧
+    highBits 0xabcd1234 = 0xabcd ∧ lowBits 0xabcd1234 = 0x1234 := by decide
+
+/-- TIE: the expressions the nine functions return, as written in the source (a changed shift, mask, element size or
+guard re-opens this by name), and the mask constant. -/
+theorem enc_utils_source_expected :
+    Generated.C14.highBitsReturns = ["uint16(x >> 16)"] ∧
+    Generated.C14.lowBitsReturns = ["uint16(x & maxLowBit)"] ∧
+    Generated.C14.valueWithHighLowBitsReturns = ["uint32(low & maxLowBit) | high"] ∧
+    Generated.C14.maxLowBit = 65535 ∧
+    Generated.C14.u32SliceToBytesReturns = ["if len(u) == 0", "nil",
+      "unsafe.Slice((*byte)(unsafe.Pointer(unsafe.SliceData(u))), len(u) * 4)"] ∧
+    Generated.C14.bytesToU32SliceReturns = ["if len(b) == 0", "nil",
+      "unsafe.Slice((*uint32)(unsafe.Pointer(unsafe.SliceData(b))), len(b) / 4)"] ∧
+    Generated.C14.u64SliceToBytesReturns = ["if len(u) == 0", "nil",
+      "unsafe.Slice((*byte)(unsafe.Pointer(unsafe.SliceData(u))), len(u) * 8)"] ∧
+    Generated.C14.bytesToU64SliceReturns = ["if len(b) == 0", "nil",
+      "unsafe.Slice((*uint64)(unsafe.Pointer(unsafe.SliceData(b))), len(b) / 8)"] ∧
+    Generated.C14.float64ToBytesReturns = ["unsafe.Slice((*byte)(unsafe.Pointer(&f64)), 8)"] ∧
+    Generated.C14.bytesToFloat64Returns = ["unsafe.Slice((*float64)(unsafe.Pointer(unsafe.SliceData(b))), 1)[0]"] :=
+  ⟨rfl, rfl, rfl, rfl, rfl, rfl, rfl, rfl, rfl, rfl⟩
+
+end EncUtils
 
 end LinVerif.Props.C14
